@@ -220,7 +220,8 @@ V('prog-while-true-in-matching', ['C10'], 'R-PROG', GR, ("    if has_indel:\n   
 V('prog-walk-arm-no-advance', ['C10'], 'R-PROG', SW, ("            visited_times += 1\n            location += 1\n", "            visited_times += 1\n"))
 V('prog-recursion', ['C10'], 'R-PROG', SW, ("    repaired_fragment_set = [set() for _ in range(len(index_markers))]", "    if detected_count > 100:\n        return repair_dna(dna_sequence, accessor, start_index, observed_length, vt_check, has_indel, heap_size)\n    repaired_fragment_set = [set() for _ in range(len(index_markers))]"))
 V('exc-repair-raises', ['C10'], 'R-EXC', SW, ("    repaired_results, count = set(), 1\n", "    repaired_results, count = set(), 1\n    if detected_count > len(dna_sequence) // 2:\n        raise ValueError(\"too many errors\")\n"))
-V('typed-repair-numpy-to-dna', ['C10'], 'R-TYPED', SW, ("number_to_dna(decimal_number=int(vt_value), dna_length=vt_length - 1)", "number_to_dna(decimal_number=vt_value, dna_length=vt_length - 1)"))
+V('twin-vt-value-already-int', ['C10', 'C07', 'C01', 'C06'], None, SW, ("number_to_dna(decimal_number=int(vt_value), dna_length=vt_length - 1)", "number_to_dna(decimal_number=vt_value, dna_length=vt_length - 1)"),
+  kind='benign', note='since the D9 repair vt_value is a Python int already, the int() is redundant')
 
 # ---------------------------------------------------------------- R-TILE
 V('defect-D8-neg-bound', ['C08'], 'R-TILE', SW, ("split_sequences[-1][: -(observed_length - 1) or None]", "split_sequences[-1][: - observed_length + 1]"))
